@@ -105,6 +105,12 @@ func evalConst(info *types.Info, e ast.Expr, env Env) (constant.Value, bool) {
 				if !known {
 					return nil, false
 				}
+				// an array indexed outside its length panics: there is no value to fold
+				if arr, isArr := v.Type().Underlying().(*types.Array); isArr && k.Kind() == constant.Int {
+					if ki, exact := constant.Int64Val(k); !exact || ki < 0 || ki >= arr.Len() {
+						return nil, false
+					}
+				}
 				for i, key := range tbl.keys {
 					if key.Kind() == k.Kind() && constant.Compare(key, token.EQL, k) {
 						return tbl.vals[i], true
